@@ -208,7 +208,7 @@ func (a *APK) installAPKFiles(ctx context.Context, in io.Reader, pkg *Package) (
 		}
 		// if it was a hidden file and not a directory and we have not yet started the data section,
 		// so skip this file
-		if !startedDataSection && header.Name[0] == '.' && !strings.Contains(header.Name, "/") {
+		if !startedDataSection && strings.HasPrefix(header.Name, ".") && !strings.Contains(header.Name, "/") {
 			continue
 		}
 		// whatever it is now, it is in the data section
@@ -328,7 +328,7 @@ func (a *APK) lazilyInstallAPKFiles(ctx context.Context, wh WriteHeaderer, tf *t
 		//  * considered to start the data section of the file.
 		//  * This does not make any sense if the file has v2.0
 		//  * style .PKGINFO
-		if !startedDataSection && file.Header.Name[0] == '.' && !strings.Contains(file.Header.Name, "/") {
+		if !startedDataSection && strings.HasPrefix(file.Header.Name, ".") && !strings.Contains(file.Header.Name, "/") {
 			continue
 		}
 		// whatever it is now, it is in the data section
